@@ -432,3 +432,7 @@ package client
 //@        && ((len(c.requests) == sinceloop(old(len(c.requests))) && notBefore(c, request, len(c.requests)) && sinceloop(forall(k, 0, len(c.requests), c.requests[k] == old(c.requests[k]))))
 //@         || (len(c.requests) == sinceloop(old(len(c.requests))) - 1 && sinceloop(old(c.requests[_i])) == request
 //@               && sinceloop(forall(k, 0, _i, c.requests[k] == old(c.requests[k]))) && sinceloop(forall(k, _i, len(c.requests), c.requests[k] == old(c.requests[k+1])))))
+
+// The application's handlers: callbacks into code outside the repository.
+//@ type Handler
+//@   callbacks
